@@ -418,7 +418,7 @@ func init() {
 		ID: "C17", Level: "fault_enumeration", Variant: "N", Design: "DESIGN.md §5 C17",
 		Rule: "Each run draws a changelog from an entry-list model (1..8 entries, options, distributions, body shapes, blank-line runs, final newline or not), a delivery profile for the simulated stream and, in the fault-injecting half, one fault: EOF at byte k (truncation), EIO at byte k, or a malformed header/trailer/date. The thorough tier executes every fault position of every sampled changelog.",
 		Run:  runC17, Sweep: true, SweepQuick: 16,
-		QuickRuns: 60000, QuickSecs: 25, ThoroughRuns: 6000, ThoroughSecs: 600,
+		QuickRuns: 300000, QuickSecs: 25, ThoroughRuns: 6000, ThoroughSecs: 600,
 		Components: map[string]interface{}{
 			"real": []string{"pault.ag/go/debian/changelog (Parse, ParseOne)", "pault.ag/go/debian/version (Parse, String)", "bufio, time (stdlib)"},
 			"stub": []string{"simio.Reader (the stream: delivery schedule, EOF placement, EIO)"},
